@@ -83,6 +83,10 @@ impl<const N: usize> Model<N> {
     pub fn clear(&mut self) { self.n = 0; }
 }
 
+/// key stored in slot `i` of the concrete wide pre-state: 37 is odd, so the keys are pairwise different for i < 256
+#[inline(always)]
+pub fn wide_key(i: usize) -> u8 { (i as u8).wrapping_mul(37).wrapping_add(11) }
+
 /// retain predicate used by harnesses and model alike
 #[inline(always)]
 pub fn keep(mask: u8, key: u8) -> bool { (mask >> (key % 8)) & 1 == 1 }
